@@ -43,6 +43,11 @@ Representation choices (each is a faithful re-encoding, not a simplification of 
   integer values (`Int`); `math.isclose(x, 0.0)` / `isclose(x, 1.0)` with default tolerances
   are then `x = 0` / `x = 1`, `int(x)` is the identity, `math.isnan` is false.  `now` is the
   frozen wall clock in the same unit as `elapsedTimeTimestamp` (seconds, Cocoa epoch).
+  `position()` computes `datetime.now() - _cocoa_to_timestamp(ts)` with two *local, naive*
+  datetimes (`fromtimestamp` of the Cocoa instant shifted to the Unix epoch); for a process
+  timezone without a DST jump between the two instants that difference is `now - ts`
+  whatever the timezone — the model knows no timezone, and the harness runs the position
+  cases under several process timezones (TZ + time.tzset()) against this one formula.
 * `PlaybackQueue.location` is a natural number (a negative location is outside the domain).
 * Not modelled because nothing reported depends on it: `PlayerState.display_name`,
   `PlayerState.parent = None` on removal (only reachable through a dangling pointer),
